@@ -518,9 +518,14 @@ func (hm *HostMap) unlockedDeleteHostInfo(hostinfo *HostInfo) bool {
 		}
 	}
 
-	delete(hm.Indexes, hostinfo.localIndexId)
-	if len(hm.Indexes) == 0 {
-		hm.Indexes = map[uint32]*HostInfo{}
+	// A hostinfo can be deleted more than once (a receive batch resolves the same cached pointer for several
+	// packets, closeTunnel can race the connection manager). By then its local index may belong to a newer
+	// hostinfo, so, like the remote index above, only drop the entry if it still points at us.
+	if hm.Indexes[hostinfo.localIndexId] == hostinfo {
+		delete(hm.Indexes, hostinfo.localIndexId)
+		if len(hm.Indexes) == 0 {
+			hm.Indexes = map[uint32]*HostInfo{}
+		}
 	}
 
 	if hm.l.Enabled(context.Background(), slog.LevelDebug) {
@@ -537,7 +542,10 @@ func (hm *HostMap) unlockedDeleteHostInfo(hostinfo *HostInfo) bool {
 	}
 	// Clean up any local relay indexes for which I am acting as a relay hop
 	for _, localRelayIdx := range hostinfo.relayState.CopyRelayForIdxs() {
-		delete(hm.Relays, localRelayIdx)
+		// Same ownership rule: on a repeated delete the relay index may have been handed to another hostinfo
+		if hm.Relays[localRelayIdx] == hostinfo {
+			delete(hm.Relays, localRelayIdx)
+		}
 	}
 
 	return final
